@@ -200,6 +200,9 @@ def order_taint(prog: Program, model: Optional[Model], fi: FuncInfo) -> List[Tup
         if isinstance(e, ast.Call) and isinstance(e.func, ast.Name) and e.func.id in ("set", "frozenset"):
             if not e.args:
                 return "unknown"
+            a0 = e.args[0]
+            if isinstance(a0, ast.Call) and isinstance(a0.func, ast.Attribute) and a0.func.attr == "keys" and not a0.args:
+                return "key"        # set(m.keys()): the keys of a mapping / of a dict schema are the user's (str as a rule)
             return elem_of(expr_kind(prog, model, fi, e.args[0]))
         if isinstance(e, ast.SetComp):
             return _comp_elem_kind(prog, model, fi, e, 0)
@@ -382,6 +385,7 @@ def check(run: Run, prog: Program, model: Model, tier: str) -> None:
         "property's own uuid4/datetime/date exemption.")
     run.explanation += " A subscript store inside a loop over a set is an order-sensitive consumer. ORDER-TAINT findings are keyed by owner class, normalised set expression and consumer, so that moving the expression does not change the finding's identity."
     run.explanation += " SET-SEED is decided per returning path of Random.set_seed: random.seed is called with the caller's seed unless a fact on the path says the seed is the no-seed sentinel (a truthiness test sends 0, '', False to OS entropy)."
+    run.explanation += ' NO-HIDDEN-STATE includes shared_global_state: a module-level mutable object bound to an instance attribute without a copy and mutated through it. The members of set(m.keys()) are keys (hash-randomised order).'
     run.rule_text = ("one obligation per external reference in scope (classified by the entropy table), per "
                      "set-valued expression reaching a consumer, per attribute write in a generation class; "
                      "non-trivial = needed callee resolution through self attributes or element-kind inference")
@@ -558,6 +562,7 @@ def check(run: Run, prog: Program, model: Model, tier: str) -> None:
     # (4) hidden state
     for ci in (model.visitors["Generator"], rnd, prog.cls("generation._regex_generator.RegexGenerator")):
         hidden_state(run, prog, ci, "NO-HIDDEN-STATE")
+        shared_global_state(run, prog, ci, "NO-HIDDEN-STATE")
     run.floor("NO-HIDDEN-STATE", 3)
 
     # positive fixture: the rules must fire on a tiny synthetic module
@@ -582,6 +587,50 @@ def _is_private_rng(prog: Program, fi: FuncInfo, base: ast.expr) -> bool:
                         and isinstance(n.value, ast.Call) and dotted(prog, init.module, n.value.func, {}) == "random.Random":
                     return True
     return False
+
+
+_MUTATORS = ("append", "extend", "insert", "pop", "remove", "clear", "update", "setdefault", "add", "discard", "popitem",
+             "sort", "reverse", "__setitem__", "__delitem__")
+
+
+def shared_global_state(run: Run, prog: Program, ci: ClassInfo, rule: str) -> None:
+    """A module-level mutable object (dict / list / set display or constructor call) bound to an instance attribute WITHOUT
+    a copy and mutated through that attribute is state shared by every instance - also by the module-level singleton the
+    package generates with: constructing a second object changes what the first one draws from."""
+    found = 0
+    for c in ci.mro():
+        if not c.qualname.startswith("d42."):
+            continue
+        aliases: Dict[str, Tuple[str, ast.AST, FuncInfo]] = {}
+        for m in c.methods.values():
+            for n in ast.walk(m.node):
+                if isinstance(n, ast.Assign) and isinstance(n.value, ast.Name) and n.value.id in m.module.bindings:
+                    b = m.module.bindings[n.value.id]
+                    val = b.node if b.kind == "assign" else None
+                    mutable = isinstance(val, (ast.Dict, ast.List, ast.Set, ast.DictComp, ast.ListComp, ast.SetComp)) or (
+                        isinstance(val, ast.Call) and isinstance(val.func, ast.Name) and val.func.id in ("dict", "list", "set", "defaultdict", "OrderedDict"))
+                    if not mutable:
+                        continue
+                    for t in n.targets:
+                        if isinstance(t, ast.Attribute) and isinstance(t.value, ast.Name) and t.value.id == "self":
+                            aliases[t.attr] = (n.value.id, n, m)
+        for attr, (gname, node, m0) in aliases.items():
+            for m in c.methods.values():
+                par = parents(m.node)
+                for n in ast.walk(m.node):
+                    if isinstance(n, ast.Attribute) and n.attr == attr and isinstance(n.value, ast.Name) and n.value.id == "self":
+                        p = par.get(n)
+                        mut = (isinstance(p, ast.Attribute) and p.attr in _MUTATORS and isinstance(par.get(p), ast.Call)) or \
+                              (isinstance(p, ast.Subscript) and isinstance(p.ctx, (ast.Store, ast.Del))) or \
+                              (isinstance(p, ast.AugAssign) and p.target is n)
+                        if mut:
+                            found += 1
+                            run.violated(rule, f"{c.name}.{m.name}: self.{attr} is the module's {gname}", f"{m.module.path}:{n.lineno}",
+                                         f"self.{attr} is bound to the module-level mutable object `{gname}` without a copy ({m0.name}, line "
+                                         f"{getattr(node, 'lineno', 0)}) and mutated here: every instance - the package's singleton too - shares it",
+                                         witness="constructing another RegexGenerator(random, alphabet={...}) changes what fake() draws for the same seed")
+    if not found:
+        run.holds(rule, f"{ci.name}: module-level mutable objects", ci.loc, "none is bound to an instance attribute and mutated through it", nontrivial=False)
 
 
 def hidden_state(run: Run, prog: Program, ci: ClassInfo, rule: str) -> None:
@@ -741,4 +790,12 @@ MUTANTS += [
 MUTANTS += [
     {"name": 'seeded C17-N', "rule": 'SET-SEED',
      "edits": [('d42/generation/_random.py', '\n\nclass Random:\n    def set_seed(self, seed: SeedType) -> None:\n        random.seed(seed)\n\n    def random_int(self, start: int, end: int) -> int:\n', '\n\nclass Random:\n    def set_seed(self, seed: Nilable[SeedType] = Nil) -> None:\n        """\n        Seed the generator: the values generated afterwards are a function of the seed.\n\n        Called without a seed, the generator is re-initialised from the OS entropy source\n        (e.g. to leave the reproducible mode at the end of a test).\n        """\n        if not seed:\n            # Nil must not reach random.seed(): it is not one of the supported seed types\n            random.seed()\n            return\n        random.seed(seed)\n\n    def random_int(self, start: int, end: int) -> int:\n')]},
+]
+
+# round 8: the seeded changes that were missed on first contact, replayed against the current tree
+MUTANTS += [
+    {"name": 'seeded C17-O', "rule": 'NO-HIDDEN-STATE',
+     "edits": [('d42/generation/_regex_generator.py', '\n__all__ = ("RegexGenerator",)\n\n\nclass RegexGenerator:\n    def __init__(self, random: Random, *,\n                 alphabet: Optional[Dict[str, str]] = None,\n                 max_repeat: int = 32) -> None:\n        self._random = random\n        self._alphabet = {\n            "letters": string.ascii_letters + string.digits + string.punctuation + " ",\n            "digits": string.digits,\n            "word": string.ascii_letters + string.digits + "_",\n        }\n        if alphabet:\n            self._alphabet.update(alphabet)\n        self._max_repeat = max_repeat\n', '\n__all__ = ("RegexGenerator",)\n\nDEFAULT_ALPHABET: Dict[str, str] = {\n    "letters": string.ascii_letters + string.digits + string.punctuation + " ",\n    "digits": string.digits,\n    "word": string.ascii_letters + string.digits + "_",\n}\n\n\nclass RegexGenerator:\n    def __init__(self, random: Random, *,\n                 alphabet: Optional[Dict[str, str]] = None,\n                 max_repeat: int = 32) -> None:\n        self._random = random\n        self._alphabet = DEFAULT_ALPHABET\n        if alphabet:\n            self._alphabet.update(alphabet)\n        self._max_repeat = max_repeat\n')]},
+    {"name": 'seeded C17-P', "rule": 'ORDER-TAINT',
+     "edits": [('d42/utils/_make_required.py', '\n    if schema.props.keys is Nil:\n        return schema\n    else:\n        updated_keys = {}\n        for key, (val, is_optional) in props_keys.items():\n            updated_keys[key] = (val, False if (key in keys) else is_optional)\n        return schema.__class__(schema.props.update(keys=updated_keys))\n', '\n    if schema.props.keys is Nil:\n        return schema\n\n    updated_keys = {key: (props_keys[key][0], False) for key in keys}\n    for key, declared in props_keys.items():\n        updated_keys.setdefault(key, declared)\n    return schema.__class__(schema.props.update(keys=updated_keys))\n')]},
 ]
